@@ -854,6 +854,12 @@ def arr_store(cur, k, v, g):
         base_ = cur[1] if cur[0] == 'arr' else cur
         k = ('const', 0) if k[2] == ('const', 1) else ('const', -1)
         g = and_(list(_conj(g)) + [cmp_('Gt', length(base_), ('const', 0))])
+    # x[:] = values (as many as x has elements): every element replaced, the array is the values (element by element, like a loop storing values[i] at i)
+    if k == ('sl', NONE, NONE, NONE) and g == TRUE and not is_scalar(v) and not isconst(v):
+        base_ = cur[1] if cur[0] == 'arr' else cur
+        lb, lv_ = length(base_), length(v)
+        if lb == lv_ and lb[0] != 'len':
+            return v
     # "if mask.any(): x[mask] = v"  ==  "x[mask] = v"
     cj = _conj(g)
     for c in list(cj):
